@@ -17,6 +17,7 @@ import FastTicc.Model.Final
 import FastTicc.Model.FrontEnd
 import FastTicc.Model.OptPhase
 import FastTicc.Model.AdmmSolve
+import FastTicc.Generated.Kernels
 
 open FastTicc FastTicc.Proto
 
@@ -478,6 +479,8 @@ def step (line : String) : String :=
       pure (match Repop.repopulate K m spread pick order labels with
         | some l => "ok " ++ showNats l ++ " " ++ showNats donors
         | none => "err - " ++ showNats donors)
+  -- ---------------------------------------------------------------- the TRANSLATED functions (Generated/Kernels.lean)
+  | "gen" :: name :: args => (GenExec.run name args).getD "unavailable"
   | ["needy", K, labels] => opt do
       let K ← parseNat? K; let labels ← parseNats? labels
       pure (showNats (Repop.needy K labels))
